@@ -123,6 +123,25 @@ func addrBytes(akind, port int) []byte {
 	case 3:
 		return append(append([]byte{3, 9}, []byte("localhost")...), p...)
 	}
+	// malformed and boundary forms (C18), mirrored in Corr/TCP.v addr_bytes
+	switch akind {
+	case 20:
+		return []byte{0, 1, 2, 3, 4, 5, 6}
+	case 21: // zero-length domain
+		return append([]byte{3, 0}, p...)
+	case 22: // 255-byte domain (no such host)
+		b := []byte{3, 255}
+		for i := 0; i < 255; i++ {
+			b = append(b, 'a'+byte(i%26))
+		}
+		return append(b, p...)
+	case 23:
+		return []byte{1, 127, 0}
+	case 24:
+		return []byte{3, 200, 97, 98}
+	case 25:
+		return []byte{4, 0, 1}
+	}
 	return []byte{9, 1, 2, 3, 4, 5, 6}
 }
 
